@@ -82,6 +82,7 @@ type instRun struct {
 	done       bool          // the running call finished
 	next       int
 	listedOnly bool
+	rtIdx      int
 }
 
 func first(err error) string {
@@ -109,9 +110,10 @@ type world struct {
 	oneConfig wazero.ModuleConfig
 	// listedOnly: oneConfig mounts one host directory that every instance only lists
 	listedOnly bool
+	misrouted  string
 }
 
-func newRuntime(engine string, cache wazero.CompilationCache, w *world) wazero.Runtime {
+func newRuntime(engine string, cache wazero.CompilationCache, w *world, idx int) wazero.Runtime {
 	var cfg wazero.RuntimeConfig
 	if engine == "interpreter" {
 		cfg = wazero.NewRuntimeConfigInterpreter()
@@ -130,6 +132,10 @@ func newRuntime(engine string, cache wazero.CompilationCache, w *world) wazero.R
 		WithGoModuleFunction(api.GoModuleFunc(func(ctx context.Context, mod api.Module, stack []uint64) {
 			tag, v := int32(uint32(stack[0])), int32(uint32(stack[1]))
 			in := w.cur
+			if in.rtIdx != idx && w.misrouted == "" {
+				// (each runtime has its own env host module, built by this same code)
+				w.misrouted = fmt.Sprintf("a guest of runtime %d called env.h and the host function given to runtime %d ran", in.rtIdx, idx)
+			}
 			in.hcount++
 			if (int(tag)+int(v)+in.hcount)%23 == 0 {
 				panic(fmt.Sprintf("simstring-%d", in.hcount))
@@ -200,6 +206,11 @@ func (w *world) instantiate(rt wazero.Runtime, bin []byte, root string, idx int)
 	}
 	in.mod = mod
 	in.listedOnly = w.listedOnly
+	for k, r := range w.rts {
+		if r == rt {
+			in.rtIdx = k
+		}
+	}
 	return in
 }
 
@@ -393,9 +404,9 @@ func (c11) Run(t *tape.Tape, cfg sim.Config) (res sim.Result) {
 	}()
 	if cfg.Class == "two-runtimes-shared-cache" {
 		w.cache = wazero.NewCompilationCache()
-		w.rts = []wazero.Runtime{newRuntime(cfg.Engine, w.cache, w), newRuntime(cfg.Engine, w.cache, w)}
+		w.rts = []wazero.Runtime{newRuntime(cfg.Engine, w.cache, w, 0), newRuntime(cfg.Engine, w.cache, w, 1)}
 	} else {
-		w.rts = []wazero.Runtime{newRuntime(cfg.Engine, nil, w)}
+		w.rts = []wazero.Runtime{newRuntime(cfg.Engine, nil, w, 0)}
 	}
 	insts := make([]*instRun, total)
 	rtOf := make([]wazero.Runtime, total)
@@ -471,6 +482,13 @@ func (c11) Run(t *tape.Tape, cfg sim.Config) (res sim.Result) {
 		}
 		res.Steps++
 	}
+	if w.misrouted != "" {
+		res.Fail("instance-interference", "%s (two runtimes sharing a compilation cache, interleaving %s)", w.misrouted, strings.Join(order, ""))
+		for _, rt := range w.rts {
+			rt.Close(ctx)
+		}
+		return
+	}
 	multiOut := make([][]string, total)
 	for i, in := range insts {
 		if in == nil {
@@ -506,7 +524,7 @@ func (c11) Run(t *tape.Tape, cfg sim.Config) (res sim.Result) {
 				f.Close()
 			}
 		}()
-		rt := newRuntime(cfg.Engine, nil, lw)
+		rt := newRuntime(cfg.Engine, nil, lw, 0)
 		in := lw.instantiate(rt, bins[which[i]], filepath.Join(root, "lone"), i)
 		in.calls = ncalls[i]
 		for in.next < len(in.calls) {
